@@ -189,7 +189,7 @@ pub fn run(case: &Value, f: &mut Fails) {
 		let r = iri::IriRef::new(s);
 		f.eq(C20, "iri.ref.new.allocs", allocs() - a0, 0);
 		match r {
-			Err(_) => f.ok(C01, "iri.ref.new", false, || json!("a specification-valid reference is rejected")),
+			Err(_) => f.ok(if fam == "both" { &["C01", "C13"] } else { C01 }, "iri.ref.new", false, || json!("a specification-valid reference is rejected")),
 			Ok(v) => {
 				view_checks!(f, "iri.ref", case, s, v, iri,
 					scheme = iri_ref_scheme,
@@ -222,7 +222,7 @@ pub fn run(case: &Value, f: &mut Fails) {
 		}
 		let r = iri::Iri::new(s);
 		match r {
-			Err(_) => f.eq(C01, "iri.full.new", false, full),
+			Err(_) => f.eq(if fam == "both" { &["C01", "C13"] } else { C01 }, "iri.full.new", false, full),
 			Ok(v) => {
 				f.eq(C01, "iri.full.new", true, full);
 				if full {
